@@ -222,6 +222,8 @@ func checkC02(p *Prog, r *Report) {
 	}
 	r.Cond(nSE >= 3, "C02/ONE-DEFINITION", "hashSearch rolling update uses SignExtend", p.Pos(hs.Pos()), "expected the oldest/newest byte of the window to be widened by SignExtend (3 sites)")
 
+	checkWideOffsets(p, r)
+
 	// ---- SEED ----
 	r.Rule("C02/SEED", "Transfer.Seed on both ends is the session seed: on the server the value written to the wire by handleConn; on the client the int32 read from the connection", 4)
 	hc := anchorFunc(p, r, pkgRsyncd, "Server", "handleConn")
@@ -362,4 +364,74 @@ func checkC02(p *Prog, r *Report) {
 	}
 	r.Trust("MD4 collision resistance (a strong match is taken as content equality, as in rsync)")
 	r.Uncovered("offset/length arithmetic of the window (mapStruct), the receiver's token*BlockLength arithmetic, chunking, rolling-checksum algebra: value-level, out of reach of structural rules")
+}
+
+// checkWideOffsets: file offsets and lengths are 64-bit quantities; a product
+// or sum of peer-supplied 32-bit values (token × block length, block index ×
+// block length) must be computed after widening, never widened after the
+// arithmetic: int64(a*b) wraps at 2 GiB and then addresses different bytes of
+// the basis than the token denotes.
+func checkWideOffsets(p *Prog, r *Report) {
+	rule := "C02/OFFSET-64BIT"
+	r.Rule(rule, "in the delta path (packages receiver, sender, rsyncchecksum and the root package) no arithmetic result of a 32-bit-or-narrower integer type with a non-constant operand is converted to a wider integer type afterwards (widen-after-multiply/add/shift); and the ReadAt offset of a block reference in receiveData is a 64-bit product", 1)
+	n := 0
+	for _, pk := range []string{pkgReceiver, pkgSender, pkgChecksum, modPath} {
+		for _, fn := range p.FuncsInPkg(pk) {
+			for _, b := range fn.Blocks {
+				for _, in := range b.Instrs {
+					cv, ok := in.(*ssa.Convert)
+					if !ok {
+						continue
+					}
+					src, okS := cv.X.Type().Underlying().(*types.Basic)
+					dst, okD := cv.Type().Underlying().(*types.Basic)
+					if !okS || !okD || src.Info()&types.IsInteger == 0 || dst.Info()&types.IsInteger == 0 {
+						continue
+					}
+					if sizeofBasic(dst) <= sizeofBasic(src) || sizeofBasic(src) > 4 {
+						continue
+					}
+					bo, isB := cv.X.(*ssa.BinOp)
+					if !isB {
+						continue
+					}
+					switch bo.Op {
+					case token.MUL, token.SHL:
+					default:
+						continue // sums/differences of two 32-bit values overflow only by one bit; products are the hazard
+					}
+					if _, kx := constInt(bo.X); kx {
+						if _, ky := constInt(bo.Y); ky {
+							continue
+						}
+					}
+					n++
+					r.Bad(rule, funcKey(fn)+" widens a "+src.Name()+" "+bo.Op.String()+" result to "+dst.Name(), p.Pos(cv.Pos()), "the product is computed in "+src.Name()+" and wraps before it is widened")
+				}
+			}
+		}
+	}
+	// the block-reference offset in receiveData
+	rd := anchorFunc(p, r, pkgReceiver, "Transfer", "receiveData")
+	if rd != nil {
+		found := 0
+		allCalls(rd, func(c ssa.CallInstruction) {
+			if calleeName(c) != "(*os.File).ReadAt" {
+				return
+			}
+			found++
+			off := stripConv(helperResult(c.Common().Args[2]))
+			bo, ok := off.(*ssa.BinOp)
+			wide := false
+			if ok && bo.Op == token.MUL {
+				if b, isB := bo.Type().Underlying().(*types.Basic); isB && sizeofBasic(b) == 8 {
+					wide = true
+				}
+			}
+			r.Cond(wide, rule, "receiveData → ReadAt(offset)", p.Pos(instrPos(c)), "the basis offset of a block reference must be a 64-bit product of the block index and the block length")
+		})
+		if found == 0 {
+			r.Bad(rule, "receiveData → ReadAt(offset)", p.Pos(rd.Pos()), "no ReadAt of the basis file found: re-read how block references are resolved")
+		}
+	}
 }
